@@ -117,6 +117,22 @@ def check_request(ctx, req, stack, body_text, config, case, kind):
 
 
 def send(ctx, rng, proxy, peer, history, stack, config, case, kind=None):
+    """One request; every third one is sent from a thread that did not build the proxy (the headers in force belong
+    to the proxy, not to the thread that pushed them)."""
+    import threading
+    send.n = getattr(send, "n", 0) + 1
+    if send.n % 3 == 0 and threading.current_thread().name != "vf-other-thread":
+        kind = kind or rng.choice(["call", "call", "notify", "batch"])
+        t = threading.Thread(target=_send, args=(ctx, rng, proxy, peer, history, stack, config,
+                                                 dict(case, sent_from="another thread"), kind), name="vf-other-thread")
+        t.start()
+        t.join(120)
+        ctx.count("requests-sent-from-another-thread")
+        return
+    _send(ctx, rng, proxy, peer, history, stack, config, case, kind)
+
+
+def _send(ctx, rng, proxy, peer, history, stack, config, case, kind=None):
     import jsonrpclib
     kind = kind or rng.choice(["call", "call", "notify", "batch"])
     peer.take()
